@@ -214,10 +214,10 @@ func c04One(i int, r *rand.Rand, res *core.Result) {
 			}
 			now := h.clk.T
 			got, _, tickOK := h.tick(0)
-		if !tickOK {
-			viol("work-does-not-terminate", "CronWorker.Work() did not return at %v (more than %d clock readings in one tick)", h.clk.T.UTC(), h.clk.Reads-1)
-			return
-		}
+			if !tickOK {
+				viol("work-does-not-terminate", "CronWorker.Work() did not return at %v (more than %d clock readings in one tick)", h.clk.T.UTC(), h.clk.Reads-1)
+				return
+			}
 			res.Evaluations++
 			for _, q := range got {
 				fired++
